@@ -587,7 +587,7 @@ Theorem C01_legacy_refuted :
 Proof.
   split; [vm_compute; reflexivity|]. split; [vm_compute; reflexivity|].
   split; [apply stable_b_sound; vm_compute; reflexivity|].
-  repeat split; vm_compute; reflexivity.
+  repeat (split; [vm_compute; reflexivity|]). vm_compute; reflexivity.
 Qed.
 
 (* ================================================================== 7. non-vacuity *)
@@ -653,7 +653,7 @@ Example ex_hypotheses_resp :
   parse_message ex_resp = Ok (parsed ex_resp, []) /\ stable (parsed ex_resp) /\
   option_map in_domain_C01 (j_read ex_resp) = Some false.
 Proof.
-  repeat split; try (vm_compute; reflexivity); apply stable_b_sound; vm_compute; reflexivity.
+  split; [vm_compute; reflexivity|split; [apply stable_b_sound; vm_compute; reflexivity|vm_compute; reflexivity]].
 Qed.
 
 (* ... and the conclusion is exercised: where each message goes, and what the executable
@@ -667,16 +667,553 @@ Example ex_paths :
   map (fun o => judge_bytes ex_req_route (snd o)) (ex_outs ex_req_route) = [None; Some 0%nat] /\
   map (fun o => judge_bytes ex_req_static (snd o)) (ex_outs ex_req_static) = [Some 0%nat] /\
   map (fun o => view (parsed (snd o)) = view (parsed ex_resp)) (ex_outs ex_resp) = [view (parsed ex_resp) = view (parsed ex_resp)].
-Proof. repeat split; vm_compute; reflexivity. Qed.
+Proof. repeat (split; [vm_compute; reflexivity|]). vm_compute; reflexivity. Qed.
 
 (* the theorem instantiated *)
+Example ex_backend_parse : parse_message ex_req_backend = Ok (parsed ex_req_backend, []).
+Proof. vm_compute. reflexivity. Qed.
+Example ex_backend_stable : stable (parsed ex_req_backend).
+Proof. apply stable_b_sound. vm_compute. reflexivity. Qed.
 Example ex_backend_theorem :
-  forall st' outs, ex_run ex_req_backend = Ok (st', outs) ->
-    outs <> [] /\ forall d b, In (d, b) outs -> good (parsed ex_req_backend) d b.
+  forall st' outs,
+    proxy_step all_fixed ex_cfg 1000 (branch_of 0) ex_st (EvUdp 0 (s2b "10.0.0.9") 5070%Z ex_req_backend)
+      = Ok (st', outs) ->
+    forall d b, In (d, b) outs -> good (parsed ex_req_backend) d b.
 Proof.
-  intros st' outs H. split.
-  - intros ->. vm_compute in H. discriminate H.
-  - apply (C01_proxy_step_udp all_fixed ex_cfg 1000%Z (branch_of 0) ex_st 0%nat (s2b "10.0.0.9") 5070%Z
-             ex_req_backend (parsed ex_req_backend) [] st' outs); [vm_compute; reflexivity| |exact H].
-    apply stable_b_sound. vm_compute. reflexivity.
+  intros st' outs H.
+  exact (C01_proxy_step_udp _ _ _ _ _ _ _ _ _ _ _ _ _ ex_backend_parse ex_backend_stable H).
 Qed.
+
+(* ================================================================== 8. bridge to the executable judge *)
+
+(* ---- the judge's header classes are the model's ---- *)
+Lemma same_header_cl n : same_header n (s2b "Content-Length") = is_cl n.
+Proof. reflexivity. Qed.
+Lemma same_header_via n : same_header n (s2b "Via") = is_via n.
+Proof. reflexivity. Qed.
+Lemma same_header_route n : same_header n (s2b "Route") = is_route n.
+Proof. unfold same_header. change (get_compact (s2b "Route")) with (@None bytes). rewrite orb_false_r. reflexivity. Qed.
+Lemma same_header_rr n : same_header n (s2b "Record-Route") = is_rr n.
+Proof. unfold same_header. change (get_compact (s2b "Record-Route")) with (@None bytes). rewrite orb_false_r. reflexivity. Qed.
+Lemma routing_name_judge n : routing_name n = routing_header n.
+Proof.
+  unfold routing_name, routing_header.
+  rewrite same_header_via, same_header_route, same_header_rr, same_header_cl. reflexivity.
+Qed.
+
+(* ---- white space ---- *)
+Lemma trim_left_head s : match trim_left s with c :: _ => is_space c = false | [] => True end.
+Proof.
+  induction s as [|c r IH]; cbn [trim_left]; [exact I|].
+  destruct (is_space c) eqn:E; [exact IH|exact E].
+Qed.
+Lemma trim_left_fix s : match s with c :: _ => is_space c = false | [] => True end -> trim_left s = s.
+Proof. destruct s as [|c r]; [reflexivity|]. intros H. cbn [trim_left]. rewrite H. reflexivity. Qed.
+Lemma trim_left_idem s : trim_left (trim_left s) = trim_left s.
+Proof. apply trim_left_fix, trim_left_head. Qed.
+Lemma trim_left_suffix s : exists w, s = w ++ trim_left s.
+Proof.
+  induction s as [|c r [w E]]; [exists []; reflexivity|]. cbn [trim_left].
+  destruct (is_space c); [exists (c :: w); cbn [app]; f_equal; exact E|exists []; reflexivity].
+Qed.
+Lemma trim_space_idem s : trim_space (trim_space s) = trim_space s.
+Proof.
+  unfold trim_space, trim_right.
+  set (a := trim_left s). set (b := trim_left (rev a)).
+  assert (Hb : trim_left (rev b) = rev b).
+  { apply trim_left_fix. destruct (rev b) as [|c r] eqn:Erb; [exact I|].
+    destruct (trim_left_suffix (rev a)) as [w Ew]. fold b in Ew.
+    assert (Ea : a = rev b ++ rev w) by (rewrite <- (rev_involutive a), Ew, rev_app_distr; reflexivity).
+    rewrite Erb in Ea. pose proof (trim_left_head s) as Hh. fold a in Hh. rewrite Ea in Hh. exact Hh. }
+  rewrite Hb, rev_involutive. unfold b. rewrite trim_left_idem. reflexivity.
+Qed.
+Lemma trim_space_sp x : trim_space (" "%char :: x) = trim_space x.
+Proof. unfold trim_space. cbn [trim_left]. change (is_space " "%char) with true. reflexivity. Qed.
+
+(* ---- Atoi accepts only sign + digits, within int64 ---- *)
+Lemma digit_nospace : forall c, is_digit c = true -> is_space c = false.
+Proof. ascii_cases. Qed.
+Lemma digits_val_digits s : forall a v, digits_val s a = Some v -> Forall (fun c => is_digit c = true) s.
+Proof.
+  induction s as [|c r IH]; intros a v H; [constructor|]. cbn [digits_val] in H.
+  destruct (is_digit c) eqn:E; [|discriminate]. constructor; [exact E|exact (IH _ _ H)].
+Qed.
+Lemma atoi_inv s z : atoi s = Some z -> nospace s /\ (int_min <= z <= int_max)%Z.
+Proof.
+  unfold atoi. destruct s as [|c r]; [discriminate|]. intros H. cbv zeta in H.
+  assert (K : forall ds,
+             match digits_val ds 0 with
+             | Some v => if (Z.leb int_min (if Ascii.eqb c "-" then (- v)%Z else v) &&
+                             Z.leb (if Ascii.eqb c "-" then (- v)%Z else v) int_max)%bool
+                         then Some (if Ascii.eqb c "-" then (- v)%Z else v) else None
+             | None => None end = Some z ->
+             Forall (fun x => is_digit x = true) ds /\ (int_min <= z <= int_max)%Z).
+  { intros ds E. destruct (digits_val ds 0) as [v|] eqn:D; [|discriminate].
+    destruct (Z.leb int_min _ && Z.leb _ int_max)%bool eqn:R; [|discriminate].
+    inversion E; subst. apply andb_true_iff in R. destruct R as [R1 R2].
+    apply Z.leb_le in R1, R2. split; [exact (digits_val_digits _ _ _ D)|split; assumption]. }
+  destruct (Ascii.eqb c "-" || Ascii.eqb c "+")%bool eqn:Sg.
+  - destruct r as [|d r']; [discriminate|].
+    destruct (K _ H) as [F R]. split; [|exact R]. intros x [<-|I].
+    + apply orb_true_iff in Sg. destruct Sg as [Q|Q]; apply Ascii.eqb_eq in Q; subst c; reflexivity.
+    + apply digit_nospace. rewrite Forall_forall in F. exact (F x I).
+  - destruct (K _ H) as [F R]. split; [|exact R]. intros x I.
+    apply digit_nospace. rewrite Forall_forall in F. exact (F x I).
+Qed.
+
+(* ---- splitting into lines ---- *)
+Lemma firstn_len_app {A} (a b : list A) : firstn (List.length a) (a ++ b) = a.
+Proof. induction a as [|x a IH]; [destruct b; reflexivity|cbn; rewrite IH; reflexivity]. Qed.
+Lemma skipn_S_len_app {A} (a : list A) x b : skipn (S (List.length a)) (a ++ x :: b) = b.
+Proof. induction a as [|y a IH]; [reflexivity|exact IH]. Qed.
+
+Lemma j_strip_cr_snoc l : j_strip_cr (l ++ [jCR]) = l.
+Proof.
+  unfold j_strip_cr. rewrite rev_app_distr. change (rev [jCR]) with [jCR]. cbn [app].
+  rewrite Ascii.eqb_refl. apply rev_involutive.
+Qed.
+Lemma j_strip_cr_cases t : j_strip_cr t = t \/ t = j_strip_cr t ++ [jCR].
+Proof.
+  unfold j_strip_cr. destruct (rev t) as [|x r] eqn:E.
+  - left. destruct t as [|y t']; [reflexivity|].
+    apply (f_equal (@List.length _)) in E. rewrite rev_length in E. discriminate E.
+  - destruct (Ascii.eqb x jCR) eqn:Q; [right|left; reflexivity].
+    apply Ascii.eqb_eq in Q. subst x. rewrite <- (rev_involutive t), E. reflexivity.
+Qed.
+Lemma j_strip_cr_in x t : In x (j_strip_cr t) -> In x t.
+Proof.
+  destruct (j_strip_cr_cases t) as [E|E]; [rewrite E; auto|].
+  intros I. rewrite E. apply in_app_iff. left. exact I.
+Qed.
+Lemma j_strip_cr_head t c l : j_strip_cr t = c :: l -> exists t', t = c :: t'.
+Proof.
+  intros H. destruct (j_strip_cr_cases t) as [E|E].
+  - exists l. rewrite <- E. exact H.
+  - rewrite H in E. exists (l ++ [jCR]). exact E.
+Qed.
+
+Definition lines_text (ls : list bytes) : bytes := flat_map (fun l => l ++ crlf) ls.
+
+Lemma j_lines_text ls : forall fuel acc rest,
+  Forall (fun l => l <> [] /\ ~ In jLF l) ls -> (List.length ls < fuel)%nat ->
+  j_lines fuel (lines_text ls ++ crlf ++ rest) acc = Some (rev acc ++ ls, rest).
+Proof.
+  induction ls as [|l ls IH]; intros fuel acc rest F L.
+  - destruct fuel as [|f]; [inversion L|]. rewrite app_nil_r. reflexivity.
+  - destruct fuel as [|f]; [inversion L|]. inversion F as [|? ? [Hne Hlf] F']; subst.
+    assert (E : lines_text (l :: ls) ++ crlf ++ rest =
+                (l ++ [jCR]) ++ jLF :: (lines_text ls ++ crlf ++ rest)).
+    { unfold lines_text. cbn [flat_map]. rewrite <- !app_assoc. reflexivity. }
+    rewrite E. cbn [j_lines].
+    assert (N : ~ In jLF (l ++ [jCR])).
+    { intros I. apply in_app_iff in I. destruct I as [I|[I|[]]]; [exact (Hlf I)|discriminate I]. }
+    rewrite (index_byte_app_notin _ _ _ N), firstn_len_app, skipn_S_len_app, j_strip_cr_snoc.
+    destruct l as [|c l']; [contradiction Hne; reflexivity|].
+    rewrite IH; [|exact F'|cbn [List.length] in L; lia].
+    cbn [rev]. rewrite <- app_assoc. reflexivity.
+Qed.
+
+Lemma lines_text_length ls : (List.length ls <= List.length (lines_text ls))%nat.
+Proof.
+  induction ls as [|l ls IH]; [apply le_n|]. unfold lines_text in *. cbn [flat_map List.length].
+  rewrite !app_length. cbn [crlf List.length]. lia.
+Qed.
+
+(* ---- write_message as lines ---- *)
+Definition hline (h : header) : bytes := h_name h ++ s2b ": " ++ hval_print (h_val h).
+Lemma flat_map_hline hs : flat_map header_print hs = lines_text (map hline hs).
+Proof.
+  induction hs as [|h r IH]; [reflexivity|]. unfold lines_text in *. cbn [map flat_map]. rewrite IH.
+  unfold header_print, hline. rewrite <- !app_assoc. reflexivity.
+Qed.
+Lemma write_message_lines m :
+  write_message m =
+  lines_text (start_line_print (m_start m) :: map hline (emitted_headers m)) ++ crlf ++ m_body m.
+Proof.
+  rewrite (proj1 (C01_single_content_length m)), flat_map_hline.
+  unfold lines_text. cbn [flat_map]. rewrite <- !app_assoc. reflexivity.
+Qed.
+
+Lemma j_header_hline n v :
+  ~ In ":"%char n -> j_header (n ++ s2b ": " ++ v) = Some (n, trim_space (" "%char :: v)).
+Proof.
+  intros N. unfold j_header. change (s2b ": " ++ v) with (":"%char :: " "%char :: v).
+  rewrite (index_byte_app_notin _ _ _ N), firstn_len_app, skipn_S_len_app. reflexivity.
+Qed.
+
+(* what the judge reads for a header the model holds as (name, printed value) *)
+Definition jpair (p : bytes * bytes) : bytes * bytes := (fst p, trim_space (" "%char :: snd p)).
+Definition hpair (h : header) : bytes * bytes := (h_name h, hval_print (h_val h)).
+
+Lemma j_headers_hlines hs :
+  Forall (fun h => ~ In ":"%char (h_name h)) hs ->
+  j_headers (map hline hs) = Some (map (fun h => jpair (hpair h)) hs).
+Proof.
+  induction 1 as [|h r Hh Hr IH]; [reflexivity|]. cbn [map j_headers].
+  unfold hline at 1. rewrite (j_header_hline _ _ Hh), IH. reflexivity.
+Qed.
+
+(* ---- what the judge reads in an output ---- *)
+(* only LF and ':' matter for the line structure (CR inside a value does not split a line) *)
+Definition line_safe (m : message) : Prop :=
+  Forall (fun h => ~ In ":"%char (h_name h) /\ ~ In jLF (h_name h) /\ ~ In jLF (hval_print (h_val h)))
+         (m_headers m).
+Definition start_ok (sl : bytes) : Prop :=
+  ~ In jLF sl /\ exists c r, sl = c :: r /\ is_space c = false.
+
+Lemma itoa_no_lf z : ~ In jLF (itoa z).
+Proof. apply itoa_notin; [reflexivity|discriminate]. Qed.
+Lemma itoa_nospace z : nospace (itoa z).
+Proof.
+  intros c I. pose proof (itoa_chars z) as F. rewrite Forall_forall in F.
+  destruct (F c I) as [D| ->]; [apply digit_nospace; exact D|reflexivity].
+Qed.
+
+Lemma filter_cl_kept (hs : list header) :
+  filter (fun p : bytes * bytes => is_cl (fst p))
+         (map (fun h => jpair (hpair h)) (filter (fun h => negb (is_cl_h h)) hs)) = [].
+Proof.
+  induction hs as [|h r IH]; [reflexivity|]. cbn [filter]. destruct (is_cl_h h) eqn:E; cbn [negb]; [exact IH|].
+  cbn [map filter jpair hpair fst]. unfold is_cl_h in E. rewrite same_header_cl in E. rewrite E. exact IH.
+Qed.
+
+(* the count statement of C01_single_content_length over the judge's own line splitting:
+   the output is readable, has exactly one Content-Length, its value is the body length, the
+   body is the body and nothing follows it *)
+Theorem C01_single_content_length_read m :
+  line_safe m -> start_ok (start_line_print (m_start m)) ->
+  (Z.of_nat (List.length (m_body m)) <= int_max)%Z ->
+  j_read (write_message m) =
+    Some {| jm_start := start_line_print (m_start m);
+            jm_headers := map (fun h => jpair (hpair h)) (emitted_headers m);
+            jm_body := m_body m; jm_rest := [];
+            jm_has_cl := true; jm_cl_count := 1;
+            jm_cl_value := Some (Z.of_nat (List.length (m_body m))) |}.
+Proof.
+  intros Ls (Slf & c & r & Es & Ec) Hb.
+  unfold j_read. rewrite write_message_lines.
+  set (em := emitted_headers m).
+  set (text := lines_text (start_line_print (m_start m) :: map hline em) ++ crlf ++ m_body m).
+  assert (T : trim_left text = text).
+  { apply trim_left_fix. unfold text, lines_text. cbn [flat_map]. rewrite Es. cbn [app]. exact Ec. }
+  rewrite T.
+  assert (Em : Forall (fun h => ~ In ":"%char (h_name h) /\ ~ In jLF (h_name h) /\
+                                ~ In jLF (hval_print (h_val h))) em).
+  { unfold em, emitted_headers. apply Forall_app. split.
+    - unfold line_safe in Ls. rewrite Forall_forall in *. intros h I. apply filter_In in I. exact (Ls h (proj1 I)).
+    - constructor; [|constructor]. cbn [cl_header h_name h_val hval_print].
+      split; [|split]; [vm_compute; intuition discriminate|vm_compute; intuition discriminate|apply itoa_no_lf]. }
+  unfold text.
+  rewrite (j_lines_text (start_line_print (m_start m) :: map hline em) _ [] (m_body m)).
+  - cbn [rev app]. rewrite j_headers_hlines
+      by (apply Forall_impl with (2 := Em); intros h H; exact (proj1 H)).
+    assert (Cls : filter (fun p : bytes * bytes => is_cl (fst p)) (map (fun h => jpair (hpair h)) em)
+                  = [jpair (hpair (cl_header m))]).
+    { unfold em, emitted_headers. rewrite map_app, filter_app, filter_cl_kept. reflexivity. }
+    rewrite Cls. cbn [snd jpair hpair cl_header h_name h_val hval_print List.length].
+    rewrite trim_space_sp, (trim_space_nospace _ (itoa_nospace _)).
+    rewrite atoi_itoa by (unfold int_min; lia).
+    rewrite Nat2Z.id, firstn_all, skipn_all. reflexivity.
+  - constructor.
+    + split; [rewrite Es; discriminate|exact Slf].
+    + apply Forall_forall. intros l I. apply in_map_iff in I. destruct I as (h & <- & I).
+      rewrite Forall_forall in Em. destruct (Em h I) as (_ & N1 & N2). unfold hline. split.
+      * destruct (h_name h); discriminate.
+      * intros J. apply in_app_iff in J. destruct J as [J|J]; [exact (N1 J)|].
+        apply in_app_iff in J. destruct J as [J|J]; [|exact (N2 J)].
+        vm_compute in J. intuition discriminate.
+  - pose proof (lines_text_length (start_line_print (m_start m) :: map hline em)) as L.
+    apply Nat.lt_succ_r. rewrite app_length. eapply Nat.le_trans; [exact L|apply Nat.le_add_r].
+Qed.
+
+(* ---- the judge's reading of the INPUT agrees with parse_message ---- *)
+Lemma read_line_index s i :
+  index_byte jLF s = Some i -> read_line s = Some (j_strip_cr (firstn i s), skipn (S i) s).
+Proof.
+  intros H. unfold read_line. destruct s as [|c r]; [discriminate H|].
+  change LF with jLF. rewrite H. reflexivity.
+Qed.
+
+Lemma lines_sim : forall f1 s acc f2 hacc ls rest hs rest',
+  j_lines f1 s acc = Some (ls, rest) -> parse_headers f2 s hacc = Ok (hs, rest') ->
+  exists jl hl, ls = rev acc ++ jl /\ hs = rev hacc ++ hl /\
+                Forall2 (fun line h => parse_header_line line = Ok h) jl hl /\ rest = rest'.
+Proof.
+  induction f1 as [|f1 IH]; intros s acc f2 hacc ls rest hs rest' J P; [discriminate J|].
+  destruct f2 as [|f2]; [discriminate P|]. cbn [j_lines] in J. cbn [parse_headers] in P.
+  destruct (index_byte jLF s) as [i|] eqn:Ei; [|discriminate J].
+  rewrite (read_line_index _ _ Ei) in P.
+  destruct (j_strip_cr (firstn i s)) as [|c l] eqn:El.
+  - inversion J; inversion P; subst. exists [], []. rewrite !app_nil_r. repeat split; constructor.
+  - destruct (parse_header_line (c :: l)) as [h| |] eqn:Ph; try discriminate P. cbn [rbind] in P.
+    destruct (IH _ _ _ _ _ _ _ _ J P) as (jl & hl & E1 & E2 & F & Er).
+    exists ((c :: l) :: jl), (h :: hl). cbn [rev] in E1, E2. rewrite <- app_assoc in E1, E2.
+    repeat split; [exact E1|exact E2|constructor; assumption|exact Er].
+Qed.
+
+(* THE ONLY lemma that looks inside the trimming function of parse_header_line: the value the
+   model stores, re-read by the judge after ": ", is the value the judge reads in the input
+   (for the ASCII trim_space: idempotence) *)
+Lemma model_value_trim line h :
+  parse_header_line line = Ok h ->
+  exists v, h_val h = HRaw v /\ j_header line = Some (h_name h, trim_space (" "%char :: v)).
+Proof.
+  unfold parse_header_line, j_header. destruct (index_byte ":"%char line) as [p|]; [|discriminate].
+  intros H. inversion H; subst. cbn [h_name h_val]. eexists. split; [reflexivity|].
+  rewrite trim_space_sp, trim_space_idem. reflexivity.
+Qed.
+
+Definition hrel (p : bytes * bytes) (h : header) : Prop :=
+  fst p = h_name h /\ exists v, h_val h = HRaw v /\ snd p = trim_space (" "%char :: v).
+
+Lemma j_headers_rel jl hl :
+  Forall2 (fun line h => parse_header_line line = Ok h) jl hl ->
+  forall jhs, j_headers jl = Some jhs -> Forall2 hrel jhs hl.
+Proof.
+  induction 1 as [|line h jl hl Ph F IH]; intros jhs J; cbn [j_headers] in J.
+  - inversion J. constructor.
+  - destruct (model_value_trim _ _ Ph) as (v & Hv & Hj). rewrite Hj in J.
+    destruct (j_headers jl) as [r|]; [|discriminate J]. inversion J; subst.
+    constructor; [split; [reflexivity|exists v; split; [exact Hv|reflexivity]]|exact (IH _ eq_refl)].
+Qed.
+
+Lemma kept_rel jhs hl :
+  Forall2 hrel jhs hl ->
+  filter (fun p : bytes * bytes => negb (routing_header (fst p))) jhs = map jpair (view_hs hl).
+Proof.
+  induction 1 as [|p h jhs hl (En & v & Hv & Es) F IH]; [reflexivity|].
+  cbn [filter]. rewrite view_hs_cons, En, <- routing_name_judge.
+  destruct (routing_name (h_name h)); cbn [negb]; [exact IH|].
+  cbn [map]. rewrite IH. f_equal. destruct p as [n x]. cbn [fst snd] in En, Es. subst.
+  unfold jpair. cbn [fst snd]. rewrite Hv. reflexivity.
+Qed.
+
+Lemma cl_rel jhs hl h :
+  Forall2 hrel jhs hl -> get_header (s2b "Content-Length") hl = Some h ->
+  exists p rest, filter (fun x : bytes * bytes => is_cl (fst x)) jhs = p :: rest /\ hrel p h.
+Proof.
+  induction 1 as [|p h0 jhs hl R F IH]; cbn [get_header filter]; intros G; [discriminate G|].
+  destruct R as (En & R). rewrite En, <- same_header_cl.
+  destruct (same_header (h_name h0) (s2b "Content-Length")).
+  - inversion G; subst. eexists _, _. split; [reflexivity|]. split; assumption.
+  - exact (IH G).
+Qed.
+
+Lemma read_agree b jin m rest :
+  j_read b = Some jin -> parse_message b = Ok (m, rest) ->
+  start_ok (jm_start jin) /\
+  filter (fun p : bytes * bytes => negb (routing_header (fst p))) (jm_headers jin)
+    = map jpair (view_hs (m_headers m)) /\
+  jm_body jin = m_body m /\ (Z.of_nat (List.length (m_body m)) <= int_max)%Z /\
+  parse_start_line (jm_start jin) = Ok (m_start m).
+Proof.
+  unfold j_read, parse_message. intros J P.
+  pose proof (trim_left_head b) as Hh.
+  set (s := trim_left b) in *. clearbody s.
+  cbn [j_lines] in J.
+  destruct (index_byte jLF s) as [i|] eqn:Ei; [|discriminate J].
+  rewrite (read_line_index _ _ Ei) in P.
+  destruct (index_byte_some _ _ _ Ei) as (Es & Nlf & _).
+  destruct (j_strip_cr (firstn i s)) as [|c l] eqn:El.
+  { change (rev (@nil bytes)) with (@nil bytes) in J. cbv beta iota in J. discriminate J. }
+  cbv beta iota in J. cbv beta iota in P.
+  match type of J with context [j_lines ?f ?r ?a] =>
+    destruct (j_lines f r a) as [[ls jrest]|] eqn:JL end; [|discriminate J].
+  destruct (parse_start_line (c :: l)) as [st| |] eqn:PS; try discriminate P. cbn [rbind] in P.
+  match type of P with context [parse_headers ?f ?r []] =>
+    destruct (parse_headers f r []) as [[hs rest1]| |] eqn:PH end; try discriminate P.
+  cbn [rbind] in P. cbv beta iota in P.
+  destruct (lines_sim _ _ _ _ _ _ _ _ _ JL PH) as (jl & hl & E1 & E2 & F & Er).
+  cbn [rev app] in E1, E2. subst ls hs jrest. cbv beta iota in J.
+  destruct (j_headers jl) as [jhs|] eqn:JH; [|discriminate J].
+  pose proof (j_headers_rel _ _ F _ JH) as R.
+  match type of P with context [get_header_int ?n ?mm] =>
+    destruct (get_header_int n mm) as [cl| |] eqn:G end; try discriminate P.
+  cbn [rbind] in P.
+  destruct (Z.ltb cl 0); [discriminate P|]. destruct (Z.ltb _ cl); [discriminate P|].
+  inversion P; subst m rest. clear P.
+  unfold get_header_int, get_raw in G. cbn [m_headers] in G.
+  destruct (get_header (s2b "Content-Length") hl) as [h|] eqn:GH; [|discriminate G].
+  destruct (h_val h) as [v| | | | | |] eqn:Hv; try discriminate G. cbn [rbind] in G.
+  destruct (atoi v) as [z|] eqn:A; [|discriminate G]. cbn [of_opt] in G. inversion G; subst z. clear G.
+  destruct (atoi_inv _ _ A) as [Nv Rg].
+  destruct (cl_rel _ _ _ R GH) as (p & prest & Cls & (_ & v' & Hv' & Ep)).
+  rewrite Hv in Hv'. inversion Hv'; subst v'.
+  rewrite trim_space_sp, (trim_space_nospace _ Nv) in Ep.
+  rewrite Cls in J. cbv beta iota in J. rewrite Ep, A in J. cbv beta iota in J.
+  inversion J; subst jin. clear J. cbn [jm_start jm_headers jm_body m_headers m_body m_start].
+  split; [|split; [|split; [|split; [|exact PS]]]].
+  - split.
+    + intros I. rewrite <- El in I. apply j_strip_cr_in in I. exact (Nlf I).
+    + exists c, l. split; [reflexivity|].
+      destruct (j_strip_cr_head _ _ _ El) as [t' Et]. rewrite Es, Et in Hh. exact Hh.
+  - exact (kept_rel _ _ R).
+  - reflexivity.
+  - apply Z.le_trans with (Z.of_nat (Z.to_nat cl)).
+    + apply Nat2Z.inj_le. apply firstn_le_length.
+    + destruct Rg as [_ Rg]. unfold int_max in *. lia.
+Qed.
+
+Lemma hs_eqb_refl a : hs_eqb a a = true.
+Proof. induction a as [|[n v] r IH]; [reflexivity|]. cbn [hs_eqb]. rewrite !beq_refl, IH. reflexivity. Qed.
+
+Lemma kept_out m :
+  filter (fun p : bytes * bytes => negb (routing_header (fst p)))
+         (map (fun h => jpair (hpair h)) (emitted_headers m)) = map jpair (view_hs (m_headers m)).
+Proof.
+  unfold emitted_headers. rewrite map_app, filter_app. cbn [map filter].
+  change (routing_header (fst (jpair (hpair (cl_header m))))) with true. cbn [negb]. rewrite app_nil_r.
+  induction (m_headers m) as [|h r IH]; [reflexivity|].
+  cbn [filter]. rewrite view_hs_cons. unfold is_cl_h at 1.
+  destruct (same_header (h_name h) (s2b "Content-Length")) eqn:E; cbn [negb].
+  - rewrite (routing_content_length _ E). exact IH.
+  - cbn [map filter]. change (fst (jpair (hpair h))) with (h_name h). rewrite <- routing_name_judge.
+    destruct (routing_name (h_name h)); cbn [negb]; [exact IH|]. cbn [map]. rewrite IH. reflexivity.
+Qed.
+
+(* ------------------------------------------------------------------ the bridge
+   REQUESTED (kept for reference; FALSE as it stands, see C01_start_line_hypothesis_necessary):
+     forall b jin m rest m', j_read b = Some jin -> in_domain_C01 jin = true ->
+       parse_message b = Ok (m, rest) -> view m' = view m -> line_safe m' ->
+       exists jo, j_read (write_message m') = Some jo /\ judge_C01_pair jin jo = 0.
+   in_domain_C01 only asks for a sip:/sips:/tel:/urn: scheme and single blanks; the start line is
+   decoded and re-encoded by the proxy, which is the identity only on the C14 grammar
+   (hypothesis [start_line_print (m_start m) = jm_start jin], discharged on the grammar domain
+   by start_line_request_roundtrip / start_line_response_roundtrip below).  With that
+   hypothesis in_domain_C01 is not even needed. *)
+Theorem C01_judge_bridge_partial b jin m rest m' :
+  j_read b = Some jin -> parse_message b = Ok (m, rest) ->
+  start_line_print (m_start m) = jm_start jin ->
+  view m' = view m -> line_safe m' ->
+  exists jo, j_read (write_message m') = Some jo /\ judge_C01_pair jin jo = 0%nat.
+Proof.
+  intros J P Hs V Ls. destruct (read_agree _ _ _ _ J P) as (So & K & B & L & _).
+  rewrite !view_eq in V. injection V as V1 V2 V3.
+  eexists. split.
+  - apply C01_single_content_length_read; [exact Ls|rewrite V1, Hs; exact So|rewrite V3; exact L].
+  - unfold judge_C01_pair. cbn [jm_start jm_headers jm_body jm_rest jm_cl_count jm_cl_value].
+    rewrite V1, Hs, beq_refl. cbn [negb].
+    unfold kept. cbn [jm_headers]. rewrite kept_out, V2, K, hs_eqb_refl. cbn [negb].
+    rewrite V3, B, beq_refl. cbn [negb]. rewrite Z.eqb_refl. reflexivity.
+Qed.
+
+(* with the outputs of the proxy: every non-dial output of an event is accepted by the judge *)
+Corollary C01_judge_relay b jin m rest e peer peer_port from rs tcp x x' :
+  j_read b = Some jin -> parse_message b = Ok (m, rest) ->
+  start_line_print (m_start m) = jm_start jin -> stable m ->
+  process_message e peer peer_port from rs tcp m x = Ok x' ->
+  exists pre, x_outs x' = x_outs x ++ pre /\
+    forall d o, In (d, o) pre ->
+      match d with
+      | DDial _ _ _ => o = []
+      | _ => exists m', o = write_message m' /\
+                        (line_safe m' -> exists jo, j_read o = Some jo /\ judge_C01_pair jin jo = 0%nat)
+      end.
+Proof.
+  intros J P Hs S H. destruct (C01_relay_preserves _ _ _ _ _ _ _ _ _ S H) as (pre & E & G).
+  exists pre. split; [exact E|]. intros d o I. specialize (G d o I).
+  destruct d; auto; destruct G as (m' & -> & V); exists m'; (split; [reflexivity|]);
+    intros Ls; exact (C01_judge_bridge_partial _ _ _ _ _ J P Hs V Ls).
+Qed.
+
+(* the start-line hypothesis is necessary: in_domain_C01 accepts "sip:h?x", whose header part
+   without '=' is dropped when the Request-URI is decoded; the judge answers 2 *)
+Definition ex_start_input : bytes :=
+  s2b "INVITE sip:h?x SIP/2.0" ++ crlf ++ s2b "Content-Length: 0" ++ crlf ++ crlf.
+Example C01_start_line_hypothesis_necessary :
+  option_map in_domain_C01 (j_read ex_start_input) = Some true /\
+  parse_message ex_start_input = Ok (parsed ex_start_input, []) /\
+  stable (parsed ex_start_input) /\
+  start_line_print (m_start (parsed ex_start_input)) = s2b "INVITE sip:h SIP/2.0" /\
+  judge_bytes ex_start_input (write_message (parsed ex_start_input)) = Some 2%nat.
+Proof.
+  split; [vm_compute; reflexivity|]. split; [vm_compute; reflexivity|].
+  split; [apply stable_b_sound; vm_compute; reflexivity|].
+  split; vm_compute; reflexivity.
+Qed.
+
+(* ---- the start-line hypothesis holds on the grammar domain ---- *)
+Lemma in_domain_single_blanks jin : in_domain_C01 jin = true -> single_blanks (jm_start jin) = true.
+Proof.
+  unfold in_domain_C01. intros H. repeat (apply andb_true_iff in H; destruct H as [H ?]). assumption.
+Qed.
+
+Lemma start_line_request_roundtrip l0 meth u ver a :
+  single_blanks l0 = true -> fields l0 = [meth; u; ver] -> has_prefix (s2b "SIP/") l0 = false ->
+  wf_addr a = true -> u = rp_addr a ->
+  exists st, parse_start_line l0 = Ok st /\ start_line_print st = l0.
+Proof.
+  intros Sb F Np W ->. unfold parse_start_line, parse_request_line.
+  rewrite Np, F, (parse_addr_spec_rp a W). cbn [rbind]. eexists. split; [reflexivity|].
+  cbn [start_line_print]. rewrite (addr_spec_print_embed a W).
+  unfold single_blanks in Sb. apply beq_eq in Sb. rewrite F in Sb. rewrite Sb. reflexivity.
+Qed.
+
+Lemma start_line_response_roundtrip l0 ver c r1 rs code :
+  single_blanks l0 = true -> fields l0 = ver :: c :: r1 :: rs -> has_prefix (s2b "SIP/") l0 = true ->
+  atoi c = Some code -> itoa code = c ->
+  exists st, parse_start_line l0 = Ok st /\ start_line_print st = l0.
+Proof.
+  intros Sb F Pp A I. unfold parse_start_line, parse_status_line. rewrite Pp, F, A.
+  eexists. split; [reflexivity|]. cbn [start_line_print]. rewrite I.
+  unfold single_blanks in Sb. apply beq_eq in Sb. rewrite F in Sb. rewrite Sb.
+  rewrite (join_byte_cons2 " "%char ver (c :: r1 :: rs)) by discriminate.
+  rewrite (join_byte_cons2 " "%char c (r1 :: rs)) by discriminate. reflexivity.
+Qed.
+
+(* the bridge for a request of the domain: Request-URI = reference rendering of a well-formed
+   abstract address (sip:, sips:, or any other scheme) *)
+Theorem C01_judge_bridge_request b jin m rest m' meth u ver a :
+  j_read b = Some jin -> in_domain_C01 jin = true -> parse_message b = Ok (m, rest) ->
+  j_is_response jin = false -> fields (jm_start jin) = [meth; u; ver] ->
+  wf_addr a = true -> u = rp_addr a ->
+  view m' = view m -> line_safe m' ->
+  exists jo, j_read (write_message m') = Some jo /\ judge_C01_pair jin jo = 0%nat.
+Proof.
+  intros J D P Nr F W U V Ls. destruct (read_agree _ _ _ _ J P) as (_ & _ & _ & _ & PS).
+  destruct (start_line_request_roundtrip _ _ _ _ _ (in_domain_single_blanks _ D) F Nr W U) as (st & E1 & E2).
+  rewrite PS in E1. inversion E1; subst st.
+  exact (C01_judge_bridge_partial _ _ _ _ _ J P E2 V Ls).
+Qed.
+
+(* ... and for a response whose status code is written in canonical decimal *)
+Theorem C01_judge_bridge_response b jin m rest m' ver c r1 rs code :
+  j_read b = Some jin -> in_domain_C01 jin = true -> parse_message b = Ok (m, rest) ->
+  j_is_response jin = true -> fields (jm_start jin) = ver :: c :: r1 :: rs ->
+  atoi c = Some code -> itoa code = c ->
+  view m' = view m -> line_safe m' ->
+  exists jo, j_read (write_message m') = Some jo /\ judge_C01_pair jin jo = 0%nat.
+Proof.
+  intros J D P Ir F A I V Ls. destruct (read_agree _ _ _ _ J P) as (_ & _ & _ & _ & PS).
+  destruct (start_line_response_roundtrip _ _ _ _ _ _ (in_domain_single_blanks _ D) F Ir A I) as (st & E1 & E2).
+  rewrite PS in E1. inversion E1; subst st.
+  exact (C01_judge_bridge_partial _ _ _ _ _ J P E2 V Ls).
+Qed.
+
+(* non-vacuity of the bridge hypotheses on the rich request *)
+Definition ex_ruri : a_addr :=
+  AASip {| au_secure := false; au_user := Some (s2b "svc", None); au_host := s2b "example.com";
+           au_port := None; au_params := []; au_headers := [] |}.
+Example ex_bridge_hypotheses :
+  wf_addr ex_ruri = true /\
+  option_map (fun j => fields (jm_start j)) (j_read ex_req_backend)
+    = Some [s2b "INVITE"; rp_addr ex_ruri; s2b "SIP/2.0"] /\
+  option_map j_is_response (j_read ex_req_backend) = Some false /\
+  option_map in_domain_C01 (j_read ex_req_backend) = Some true.
+Proof. repeat (split; [vm_compute; reflexivity|]). vm_compute; reflexivity. Qed.
+
+Print Assumptions C01_relay_preserves.
+Print Assumptions C01_proxy_step_udp.
+Print Assumptions C01_proxy_step_tcp.
+Print Assumptions stable_on_c14_domain.
+Print Assumptions stable_b_sound.
+Print Assumptions C01_stable_necessary.
+Print Assumptions C01_single_content_length.
+Print Assumptions C01_single_content_length_read.
+Print Assumptions C01_legacy_refuted.
+Print Assumptions C01_judge_bridge_partial.
+Print Assumptions C01_judge_relay.
+Print Assumptions C01_judge_bridge_request.
+Print Assumptions C01_judge_bridge_response.
+Print Assumptions C01_start_line_hypothesis_necessary.
+Print Assumptions ex_backend_theorem.
